@@ -140,9 +140,54 @@ def concrete(sub, item):
                 return
 
 
+def derived_columns(sub, desc):
+    """Real synthesize_trials (IterateSATGen, RandomGen) on a corpus design with derived factors: in every returned
+    sequence each derived column holds, at every applicable trial, the level whose predicate accepts that trial's window
+    (None before the sequence starts) and nothing at the other trials -- also for factors that have no variables and are
+    filled in afterwards (block.add_implied_levels)."""
+    import sweetpea as sp
+    from ..designs import build, describe, compiled_clauses
+    from ..ref import validate, Outside, Refused
+    from ..sat import solve
+    from ..common import stable_hash
+    key = stable_hash(desc)
+    derived = [f['name'] for f in desc['factors'] if 'window' in f]
+    try:
+        with quiet():
+            built = build(desc)
+            if built.block.show_errors() or not solve(compiled_clauses(built.block))[0]:
+                return 'no-sequences'
+    except Exception:
+        return 'rejected'
+    for strat in ('IterateSATGen', 'RandomGen'):
+        try:
+            with quiet():
+                out = sp.synthesize_trials(built.block, 3, getattr(sp, strat))
+        except Exception:
+            return 'internal-error'      # C08's subject
+        for seq in out:
+            try:
+                ok, bad = validate(desc, seq)
+            except (Outside, Refused):
+                return 'outside'
+            mine = [b for b in bad if b.split(':')[0] in ('derive', 'level', 'inapplicable', 'length')
+                    and any(b.split(':')[1].split('@')[0] == d for d in derived)]
+            if mine:
+                sub.case(key)
+                sub.violation(f'column:{key}', f'{describe(desc)}: {strat} returns {seq}; derived column(s) wrong at {mine[:4]}',
+                              {'desc': desc, 'query': 'column', 'strategy': strat})
+                return 'violation'
+    sub.case(key)
+    return 'ok'
+
+
 def replay(data):
     if data.get('query') == 'crosshair':
         return replay_harness(data)
+    if data.get('query') == 'column':
+        from ..common import Sub
+        sub = Sub('C15', 'quick', 0)
+        return derived_columns(sub, data['desc']) == 'violation'
     if data.get('query') == 'crossed-no-level':
         import sweetpea as sp
         try:
@@ -169,11 +214,11 @@ def run(ctx):
                       'get_dependent_cross_product', 'primitive.DerivedFactor._process_initial_levels / ElseLevel',
                       'cross_block._create', 'block.show_errors', 'main.synthesize_trials (concrete part)']
     ctx.bounds = {'symbolic tables': 'WithinTrial(A,B) 2x4 entries; Transition(A) 2x4; Window(A, width 2, start 0) 6 entries '
-                                     '+ ElseLevel; Window(start 1) 6 entries', 'roles': 'crossed, constrained, implied'}
+                                     '+ ElseLevel; Window(start 1) 6 entries', 'roles': 'crossed, constrained, implied', 'corpus': 'every corpus design with a derived factor: 3 sequences from IterateSATGen and RandomGen, derived columns (also implied ones, windows with early start, stride, weighted sources) against R rule 3'}
     ctx.outside += ['derived factors with more than two levels or wider windows', 'stride > 1 (applicability is R rule 3)']
     ctx.stubs += ['Factor/Level __hash__ = id>>4']
     ctx.assumptions += ['CrossHair/z3 sound']
-    ctx.rule = 'one case per (window kind, role); all truth tables symbolic; plus every WithinTrial table pair concretely'
+    ctx.rule = 'one case per (window kind, role); all truth tables symbolic; plus every WithinTrial table pair concretely; plus one case per corpus design with derived factors (real output columns)'
     ctx.explanation = ('Symbolic predicate truth tables through the real constructors: ambiguity <=> ValueError, '
                        'non-coverage <=> fatal error; concrete synthesis for all 256 WithinTrial table pairs x 2 roles.')
     # a crossed derived factor none of whose levels accepts anything (require_complete_crossing=False)
@@ -197,6 +242,12 @@ def run(ctx):
     items = [(t0, t1, role) for t0 in itertools.product([0, 1], repeat=4) for t1 in itertools.product([0, 1], repeat=4)
              for role in (('implied', 'constrained') if ctx.tier == 'thorough' else ('implied',))]
     pmap(ctx, concrete, items)
+    from ..corpus import designs
+    import os
+    os.environ.setdefault('VERIF_ITEM_TIMEOUT', '300' if ctx.tier == 'thorough' else '40')
+    ds = [d for d in designs(ctx.tier, ctx.seed) if any('window' in f for f in d['factors'])]
+    res = pmap(ctx, derived_columns, ds)
+    ctx.extra['corpus_outcomes'] = {str(k): res.count(k) for k in set(res)}
     cs = cases(ctx.tier)
     ctx.sample({'case': cs[0].name, 'info': cs[0].info})
     run_cases(ctx, HEADER, cs, timeout=600 if ctx.tier == 'thorough' else 200, path_timeout=40, module_tag='c15',
